@@ -3,6 +3,7 @@ package worker
 import (
 	"encoding/json"
 	"fmt"
+	"strings"
 	"testing"
 	"time"
 
@@ -16,6 +17,7 @@ import (
 
 func init() {
 	register(&Family{Name: "c16", Gen: genC16, Run: runC16})
+	register(&Family{Name: "c16load", Gen: genC16Load, Run: runC16Load})
 }
 
 func genC16(seed uint64, tier string) *world.Scenario {
@@ -212,4 +214,113 @@ func runC16(t *testing.T, sc *world.Scenario) *check.Result {
 	return runL1(t, sc, func(st *stage.Stage, res *check.Result) []Oracle {
 		return []Oracle{&c16Oracle{starting: map[string]bool{}, st: st, first: map[string]int{}, last: map[string]int{}, firstT: map[string]time.Duration{}, lastT: map[string]time.Duration{}}}
 	})
+}
+
+// c16load: the whole program in a process of its own (configuration file -> real loader -> validation -> daemon)
+// with the option switched off in the spellings people use for "false" in a YAML document. Whatever the loader
+// makes of a spelling -- it may refuse the document, then nothing is analysed -- a daemon that starts with the
+// option written as a negative word analyses its fans one at a time.
+var c16FalseWords = []string{"false", "False", "FALSE", `"false"`, "f", "0", "off", "Off", "OFF", "no", "No", "n", `"off"`, `"no"`}
+
+func genC16Load(seed uint64, tier string) *world.Scenario {
+	sc, r := baseScenario("c16load", seed)
+	chip := addChip(sc, "simchip")
+	sc.ParallelInit = false
+	sc.FalseWord = c16FalseWords[r.Intn(len(c16FalseWords))]
+	sc.FanResponseDelay = 1
+	sc.RpmPoll = ms(1000)
+	sc.Tick = ms(500)
+	sc.TempPoll = ms(500)
+	nf := r.Range(2, 3)
+	total := 0.0
+	for i := 0; i < nf; i++ {
+		_, cid := addSensorCurve(sc, r, i, "file", constTemp(tempForCurve(r.Range(0, 255))), chip)
+		f := world.FanSpec{ID: fmt.Sprintf("f%d", i), Kind: "hwmon", Curve: cid, Chip: chip, Channel: i + 1, Algo: world.AlgoSpec{Kind: "direct"}}
+		f.Plant = world.PlantSpec{MaxRpm: r.Range(800, 3000), StartThr: r.Range(0, 60), TauMs: kernel.Pick(r, 50, 300, 1500), InitRpm: r.Range(0, 1500)}
+		f.Plant.StopThr = f.Plant.StartThr
+		f.Driver = world.DriverSpec{InitMode: 2, InitPwm: 0, AutoPwm: 100, Quant: "mult", K: kernel.Pick(r, 32, 51)}
+		sc.Fans = append(sc.Fans, f)
+		total += 1.5 + 14 + float64(256/f.Driver.K+1) + float64(f.Plant.TauMs)/100
+	}
+	sc.Horizon = sec(total + 15)
+	sc.Variant = "spelled:" + sc.FalseWord
+	return sc
+}
+
+func runC16Load(t *testing.T, sc *world.Scenario) *check.Result {
+	res := check.NewResult(sc.Family, sc.Seed)
+	res.ScHash = scHash(sc)
+	res.Sample = fmt.Sprintf("c16load seed=%d fans=%d runFanInitializationInParallel: %s", sc.Seed, len(sc.Fans), sc.FalseWord)
+	worldDir, outDir := l2Dirs()
+	defer l2Cleanup(worldDir)
+	co := runChild(&childSpec{Scenario: sc, WorldDir: worldDir, OutDir: outDir}, 120*time.Second)
+	accumulate(res, co)
+	if stuckViolation(res, "C16", co) {
+		return res
+	}
+	if co.Harness != "" {
+		res.Harness = co.Harness + "\n" + tailStr(co.Stderr, 1500)
+		return res
+	}
+	// the same analysis-event rule as the L1 oracle, on the journal
+	starting := map[string]bool{}
+	first, last := map[string]int{}, map[string]int{}
+	firstT, lastT := map[string]time.Duration{}, map[string]time.Duration{}
+	for _, ev := range co.Events {
+		if ev.Kind == "yield" {
+			switch ev.Site {
+			case "ctl.startup":
+				starting[ev.ID] = true
+			case "ctl.delay":
+				starting[ev.ID] = false
+			}
+			continue
+		}
+		if ev.Kind != "read" && ev.Kind != "write" {
+			continue
+		}
+		fan := ""
+		for i := range sc.Fans {
+			if eventOfFan(sc, co, ev, &sc.Fans[i]) {
+				fan = sc.Fans[i].ID
+			}
+		}
+		if fan == "" {
+			continue
+		}
+		byName := ev.Flags&(kernel.FPwmMapSweep|kernel.FInitSeq) != 0
+		byWindow := starting[fan] && ev.Kind == "write" && !strings.HasSuffix(ev.Site, "_enable") && ev.Flags&kernel.FRestore == 0
+		if !byName && !byWindow {
+			continue
+		}
+		if _, ok := first[fan]; !ok {
+			first[fan], firstT[fan] = ev.Seq, ev.T
+		}
+		last[fan], lastT[fan] = ev.Seq, ev.T
+	}
+	res.Nontrivial = true
+	if len(first) == 0 {
+		// the loader refused the document (or the daemon gave up before touching a fan)
+		res.Probe("document-refused:" + sc.FalseWord)
+		res.State("refused|" + sc.FalseWord)
+		return res
+	}
+	res.Probe("daemon-started:" + sc.FalseWord)
+	if len(first) < 2 {
+		res.Harness = fmt.Sprintf("c16load: only %d fans were analysed\n%s", len(first), tailStr(co.UILog, 800))
+		return res
+	}
+	for i := range sc.Fans {
+		for j := i + 1; j < len(sc.Fans); j++ {
+			a, b := sc.Fans[i].ID, sc.Fans[j].ID
+			_, oka := first[a]
+			_, okb := first[b]
+			if oka && okb && first[a] <= last[b] && first[b] <= last[a] {
+				res.Violate("C16", "one-at-a-time", "one-at-a-time (option spelled "+sc.FalseWord+")", max(first[a], first[b]), nil,
+					"the configuration says runFanInitializationInParallel: %s and the daemon started, yet the analyses of %s (%s..%s) and %s (%s..%s) overlap", sc.FalseWord, a, firstT[a], lastT[a], b, firstT[b], lastT[b])
+			}
+		}
+	}
+	res.State(fmt.Sprintf("started|%s|fans=%d", sc.FalseWord, len(first)))
+	return res
 }
